@@ -1,5 +1,11 @@
 /-
 C08 — Bézier curves and chains are the exact curves, joined smoothly.
+
+The theorems are about Model/Dim2.lean and Model/Dim3.lean (the models of the free functions and
+of the chain builders of dim2.rs / dim3.rs; the correspondence run compares every generated curve,
+chain history and star with the crate's output) over an arbitrary field of characteristic zero, and
+over ℝ where an order or a square root is needed.  They hold for all control points, all segment
+counts ≥ 1 and all histories `new → add* → [close]`.
 -/
 import ScadVerif.Lemmas.PtReal
 import ScadVerif.Model.Dim3
@@ -7,14 +13,287 @@ set_option linter.unusedSectionVars false
 namespace ScadVerif.C08
 open ScadVerif ScadVerif.Dim2
 
+section Ext
+variable {α : Type} [Field α]
+theorem pt2_ext {a b : Pt2 α} (hx : a.x = b.x) (hy : a.y = b.y) : a = b := by
+  cases a; cases b; simp_all
+theorem pt3_ext {a b : Pt3 α} (hx : a.x = b.x) (hy : a.y = b.y) (hz : a.z = b.z) : a = b := by
+  cases a; cases b; simp_all
+
+theorem add_x (a b : Pt2 α) : (a + b).x = a.x + b.x := rfl
+theorem add_y (a b : Pt2 α) : (a + b).y = a.y + b.y := rfl
+theorem sub_x (a b : Pt2 α) : (a - b).x = a.x - b.x := rfl
+theorem sub_y (a b : Pt2 α) : (a - b).y = a.y - b.y := rfl
+theorem smul_x (a : Pt2 α) (k : α) : (a * k).x = a.x * k := rfl
+theorem smul_y (a : Pt2 α) (k : α) : (a * k).y = a.y * k := rfl
+theorem add3_x (a b : Pt3 α) : (a + b).x = a.x + b.x := rfl
+theorem add3_y (a b : Pt3 α) : (a + b).y = a.y + b.y := rfl
+theorem add3_z (a b : Pt3 α) : (a + b).z = a.z + b.z := rfl
+theorem smul3_x (a : Pt3 α) (k : α) : (a * k).x = a.x * k := rfl
+theorem smul3_y (a : Pt3 α) (k : α) : (a * k).y = a.y * k := rfl
+theorem smul3_z (a : Pt3 α) (k : α) : (a * k).z = a.z * k := rfl
+
+end Ext
+
 section Field
-variable {α : Type} [Field α] [Trig α]
+variable {α : Type} [Field α] [CharZero α] [Trig α]
 
 /-- segments + 1 points -/
 theorem quadratic_length (s c e : Pt2 α) (n : Nat) : (quadraticBezier s c e n).length = n + 1 := by
   simp [quadraticBezier]
 theorem cubic_length (s c1 c2 e : Pt2 α) (n : Nat) : (cubicBezier s c1 c2 e n).length = n + 1 := by
   simp [cubicBezier]
+theorem quadratic3_length (s c e : Pt3 α) (n : Nat) : (Dim3.quadraticBezier s c e n).length = n + 1 := by
+  simp [Dim3.quadraticBezier]
+theorem cubic3_length (s c1 c2 e : Pt3 α) (n : Nat) : (Dim3.cubicBezier s c1 c2 e n).length = n + 1 := by
+  simp [Dim3.cubicBezier]
+
+/-- the sample parameters are `i / segments` -/
+theorem param_eq (i n : Nat) : (param i n : α) = (i : α) / (n : α) := by simp [param]
+theorem param_zero (n : Nat) : (param 0 n : α) = 0 := by simp [param]
+theorem param_last (n : Nat) (hn : n ≠ 0) : (param n n : α) = 1 := by
+  simp [param, Nat.cast_ne_zero.mpr hn]
+
+/-- **the sample points**: point `i` is the curve's point at `t = i / segments` -/
+theorem quadratic_get (s c e : Pt2 α) (n i : Nat) (h : i ≤ n) :
+    (quadraticBezier s c e n)[i]? = some (quadPoint s c e ((i : α) / (n : α))) := by
+  simp [quadraticBezier, List.getElem?_map, List.getElem?_range (show i < n + 1 by omega), param_eq]
+theorem cubic_get (s c1 c2 e : Pt2 α) (n i : Nat) (h : i ≤ n) :
+    (cubicBezier s c1 c2 e n)[i]? = some (cubicPoint s c1 c2 e ((i : α) / (n : α))) := by
+  simp [cubicBezier, List.getElem?_map, List.getElem?_range (show i < n + 1 by omega), param_eq]
+
+/-- **exact end points** -/
+theorem quadPoint_zero (s c e : Pt2 α) : quadPoint s c e 0 = s := by
+  apply pt2_ext <;> simp [quadPoint, add_x, add_y, smul_x, smul_y]
+theorem quadPoint_one (s c e : Pt2 α) : quadPoint s c e 1 = e := by
+  apply pt2_ext <;> simp [quadPoint, add_x, add_y, smul_x, smul_y]
+theorem cubicPoint_zero (s c1 c2 e : Pt2 α) : cubicPoint s c1 c2 e 0 = s := by
+  apply pt2_ext <;> simp [cubicPoint, add_x, add_y, smul_x, smul_y]
+theorem cubicPoint_one (s c1 c2 e : Pt2 α) : cubicPoint s c1 c2 e 1 = e := by
+  apply pt2_ext <;> simp [cubicPoint, add_x, add_y, smul_x, smul_y]
+
+theorem quadratic_first (s c e : Pt2 α) (n : Nat) : (quadraticBezier s c e n)[0]? = some s := by
+  rw [quadratic_get s c e n 0 (Nat.zero_le _)]; simp [quadPoint_zero]
+theorem quadratic_last (s c e : Pt2 α) (n : Nat) (hn : n ≠ 0) : (quadraticBezier s c e n)[n]? = some e := by
+  rw [quadratic_get s c e n n (Nat.le_refl _), div_self (Nat.cast_ne_zero.mpr hn), quadPoint_one]
+theorem cubic_first (s c1 c2 e : Pt2 α) (n : Nat) : (cubicBezier s c1 c2 e n)[0]? = some s := by
+  rw [cubic_get s c1 c2 e n 0 (Nat.zero_le _)]; simp [cubicPoint_zero]
+theorem cubic_last (s c1 c2 e : Pt2 α) (n : Nat) (hn : n ≠ 0) : (cubicBezier s c1 c2 e n)[n]? = some e := by
+  rw [cubic_get s c1 c2 e n n (Nat.le_refl _), div_self (Nat.cast_ne_zero.mpr hn), cubicPoint_one]
+
+/-- linear interpolation, as de Casteljau uses it -/
+def mix (a b : Pt2 α) (t : α) : Pt2 α := a * (1 - t) + b * t
+
+/-- **Bernstein form = de Casteljau's construction** -/
+theorem quad_deCasteljau (s c e : Pt2 α) (t : α) :
+    quadPoint s c e t = mix (mix s c t) (mix c e t) t := by
+  apply pt2_ext <;> simp [quadPoint, mix, add_x, add_y, smul_x, smul_y] <;> ring
+theorem cubic_deCasteljau (s c1 c2 e : Pt2 α) (t : α) :
+    cubicPoint s c1 c2 e t =
+      mix (mix (mix s c1 t) (mix c1 c2 t) t) (mix (mix c1 c2 t) (mix c2 e t) t) t := by
+  apply pt2_ext <;> simp [cubicPoint, mix, add_x, add_y, smul_x, smul_y] <;> ring
+
+/-- **2D and 3D agree on planar input**, in any plane `z = const` -/
+theorem quad_planar (s c e : Pt2 α) (z t : α) :
+    Dim3.quadPoint (s.asPt3 z) (c.asPt3 z) (e.asPt3 z) t = (quadPoint s c e t).asPt3 z := by
+  apply pt3_ext <;>
+    simp [Dim3.quadPoint, quadPoint, Pt2.asPt3, add3_x, add3_y, add3_z, smul3_x, smul3_y, smul3_z, add_x,
+      add_y, smul_x, smul_y] <;> ring
+theorem cubic_planar (s c1 c2 e : Pt2 α) (z t : α) :
+    Dim3.cubicPoint (s.asPt3 z) (c1.asPt3 z) (c2.asPt3 z) (e.asPt3 z) t =
+      (cubicPoint s c1 c2 e t).asPt3 z := by
+  apply pt3_ext <;>
+    simp [Dim3.cubicPoint, cubicPoint, Pt2.asPt3, add3_x, add3_y, add3_z, smul3_x, smul3_y, smul3_z, add_x,
+      add_y, smul_x, smul_y] <;> ring
+theorem cubicBezier_planar (s c1 c2 e : Pt2 α) (z : α) (n : Nat) :
+    Dim3.cubicBezier (s.asPt3 z) (c1.asPt3 z) (c2.asPt3 z) (e.asPt3 z) n =
+      (cubicBezier s c1 c2 e n).map (·.asPt3 z) := by
+  simp [Dim3.cubicBezier, cubicBezier, cubic_planar, Function.comp_def]
+theorem quadraticBezier_planar (s c e : Pt2 α) (z : α) (n : Nat) :
+    Dim3.quadraticBezier (s.asPt3 z) (c.asPt3 z) (e.asPt3 z) n =
+      (quadraticBezier s c e n).map (·.asPt3 z) := by
+  simp [Dim3.quadraticBezier, quadraticBezier, quad_planar, Function.comp_def]
+
+/-- 3D curves: exact end points -/
+theorem cubic3_zero (s c1 c2 e : Pt3 α) : Dim3.cubicPoint s c1 c2 e 0 = s := by
+  apply pt3_ext <;> simp [Dim3.cubicPoint, add3_x, add3_y, add3_z, smul3_x, smul3_y, smul3_z]
+theorem cubic3_one (s c1 c2 e : Pt3 α) : Dim3.cubicPoint s c1 c2 e 1 = e := by
+  apply pt3_ext <;> simp [Dim3.cubicPoint, add3_x, add3_y, add3_z, smul3_x, smul3_y, smul3_z]
+theorem quad3_zero (s c e : Pt3 α) : Dim3.quadPoint s c e 0 = s := by
+  apply pt3_ext <;> simp [Dim3.quadPoint, add3_x, add3_y, add3_z, smul3_x, smul3_y, smul3_z]
+theorem quad3_one (s c e : Pt3 α) : Dim3.quadPoint s c e 1 = e := by
+  apply pt3_ext <;> simp [Dim3.quadPoint, add3_x, add3_y, add3_z, smul3_x, smul3_y, smul3_z]
+
 end Field
+
+/-! ### convex hull (needs an order) -/
+section Hull
+/-- the Bernstein weights are non-negative on [0,1] and sum to one: every sample is a convex
+combination of the control points, so the curve stays inside their convex hull -/
+theorem cubic_hull (s c1 c2 e : Pt2 ℝ) (t : ℝ) (h0 : 0 ≤ t) (h1 : t ≤ 1) :
+    ∃ w0 w1 w2 w3 : ℝ, 0 ≤ w0 ∧ 0 ≤ w1 ∧ 0 ≤ w2 ∧ 0 ≤ w3 ∧ w0 + w1 + w2 + w3 = 1 ∧
+      cubicPoint s c1 c2 e t = s * w0 + c1 * w1 + c2 * w2 + e * w3 := by
+  have h2 : 0 ≤ 1 - t := by linarith
+  refine ⟨(1 - t) * (1 - t) * (1 - t), 3 * t * (1 - t) * (1 - t), 3 * t * t * (1 - t), t * t * t,
+    by positivity, by positivity, by positivity, by positivity, by ring, ?_⟩
+  apply pt2_ext <;> simp [cubicPoint, add_x, add_y, smul_x, smul_y] <;> ring
+theorem quad_hull (s c e : Pt2 ℝ) (t : ℝ) (h0 : 0 ≤ t) (h1 : t ≤ 1) :
+    ∃ w0 w1 w2 : ℝ, 0 ≤ w0 ∧ 0 ≤ w1 ∧ 0 ≤ w2 ∧ w0 + w1 + w2 = 1 ∧
+      quadPoint s c e t = s * w0 + c * w1 + e * w2 := by
+  have h2 : 0 ≤ 1 - t := by linarith
+  refine ⟨(1 - t) * (1 - t), 2 * t * (1 - t), t * t, by positivity, by positivity, by positivity,
+    by ring, ?_⟩
+  apply pt2_ext <;> simp [quadPoint, add_x, add_y, smul_x, smul_y] <;> ring
+/-- every sample parameter lies in [0,1] -/
+theorem param_unit (i n : Nat) (h : i ≤ n) (hn : n ≠ 0) : 0 ≤ (param i n : ℝ) ∧ (param i n : ℝ) ≤ 1 := by
+  rw [param_eq]
+  have hn' : (0 : ℝ) < n := by exact_mod_cast Nat.pos_of_ne_zero hn
+  constructor
+  · positivity
+  · rw [div_le_one hn']; exact_mod_cast h
+end Hull
+
+/-! ### chains: every history `new → add* → [close]` -/
+section Chains
+variable {α : Type} [Field α] [Trig α] [HasSqrt α]
+
+/-- consecutive curves share their end point exactly, and the outgoing handle is the incoming
+tangent direction scaled (tangent continuity) -/
+def JoinedPair (a b : Cubic α) : Prop :=
+  b.start = a.end_ ∧ ∃ k : α, b.control1 - b.start = (a.end_ - a.control2).normalized * k
+
+def Joined : List (Cubic α) → Prop
+  | a :: b :: rest => JoinedPair a b ∧ Joined (b :: rest)
+  | _ => True
+
+theorem sub_add_cancel_pt (a b : Pt2 α) : a + b - a = b := by
+  apply pt2_ext <;> simp [add_x, add_y, sub_x, sub_y]
+
+theorem nextCurve_joined (last : Cubic α) (len : α) (c2 e : Pt2 α) (n : Nat) :
+    JoinedPair last (nextCurve last len c2 e n) :=
+  ⟨rfl, len, by simp only [nextCurve]; exact sub_add_cancel_pt _ _⟩
+
+theorem joined_append (cs : List (Cubic α)) (last c : Cubic α) (hl : cs.getLast? = some last)
+    (hj : Joined cs) (hp : JoinedPair last c) : Joined (cs ++ [c]) := by
+  induction cs with
+  | nil => simp at hl
+  | cons a t ih =>
+    cases t with
+    | nil =>
+      simp only [List.getLast?_singleton, Option.some.injEq] at hl
+      subst hl
+      exact ⟨hp, True.intro⟩
+    | cons b t' =>
+      have hl' : (b :: t').getLast? = some last := by simpa [List.getLast?_cons_cons] using hl
+      exact ⟨hj.1, ih hl' hj.2⟩
+
+/-- a chain built by `new` and any number of `add`s -/
+inductive Built : Chain α → Prop
+  | new (s c1 c2 e : Pt2 α) (n : Nat) : Built (Chain.new s c1 c2 e n)
+  | add (ch : Chain α) (len : α) (c2 e : Pt2 α) (n : Nat) : Built ch → Built (ch.add len c2 e n)
+
+theorem built_nonempty (ch : Chain α) (h : Built ch) : ch.curves ≠ [] := by
+  induction h with
+  | new => simp [Chain.new]
+  | add ch len c2 e n _ ih =>
+    unfold Chain.add
+    cases hl : ch.curves.getLast? with
+    | none => simpa using ih
+    | some last => simp
+
+/-- **every joint of every history is smooth** -/
+theorem built_joined (ch : Chain α) (h : Built ch) : Joined ch.curves := by
+  induction h with
+  | new => simp [Chain.new, Joined]
+  | add ch len c2 e n hb ih =>
+    unfold Chain.add
+    cases hl : ch.curves.getLast? with
+    | none => simpa using ih
+    | some last => exact joined_append _ last _ hl ih (nextCurve_joined last len c2 e n)
+
+/-- `add` ends the chain at the new knot, keeps every earlier curve, and is open -/
+theorem add_last (ch : Chain α) (h : Built ch) (len : α) (c2 e : Pt2 α) (n : Nat) :
+    ((ch.add len c2 e n).curves.getLast?.map (·.end_) = some e) ∧
+      (ch.add len c2 e n).curves.length = ch.curves.length + 1 ∧
+      (ch.add len c2 e n).curves.take ch.curves.length = ch.curves := by
+  have hne := built_nonempty ch h
+  unfold Chain.add
+  cases hl : ch.curves.getLast? with
+  | none => simp [List.getLast?_eq_none_iff] at hl; exact absurd hl hne
+  | some last => simp [nextCurve]
+
+theorem built_open (ch : Chain α) (h : Built ch) : ch.closed = false := by
+  induction h with
+  | new => rfl
+  | add ch len c2 e n _ ih =>
+    unfold Chain.add
+    cases ch.curves.getLast? <;> simpa using ih
+
+/-- what `close` builds: the closing curve `nc` is appended and the first curve's first handle is
+re-aimed along `nc`'s incoming tangent -/
+theorem close_eq (ch : Chain α) (f last : Cubic α) (rest : List (Cubic α)) (hc : ch.curves = f :: rest)
+    (hl : (f :: rest).getLast? = some last) (len : α) (c2 : Pt2 α) (startLen : α) (n : Nat) :
+    ch.close len c2 startLen n =
+      ⟨{ f with control1 := (nextCurve last len c2 f.start n).end_ +
+          ((nextCurve last len c2 f.start n).end_ - (nextCurve last len c2 f.start n).control2).normalized *
+            startLen } :: (rest ++ [nextCurve last len c2 f.start n]), true⟩ := by
+  have h1 : (f :: (rest ++ [nextCurve last len c2 f.start n])).getLast? =
+      some (nextCurve last len c2 f.start n) := by
+    rw [← List.cons_append]; exact List.getLast?_concat ..
+  simp only [Chain.close, hc, Chain.add, hl, List.cons_append, h1]
+
+/-- **closing**: the closing curve ends at the first knot, and the first curve's outgoing handle is
+re-aimed along the closing curve's incoming tangent: the start knot is smooth too -/
+theorem close_spec (ch : Chain α) (h : Built ch) (len : α) (c2 : Pt2 α) (startLen : α) (n : Nat) :
+    (ch.close len c2 startLen n).closed = true ∧
+    (ch.close len c2 startLen n).curves.length = ch.curves.length + 1 ∧
+    ∃ first last, (ch.close len c2 startLen n).curves.head? = some first ∧
+      (ch.close len c2 startLen n).curves.getLast? = some last ∧
+      last.end_ = first.start ∧
+      first.control1 - first.start = (last.end_ - last.control2).normalized * startLen := by
+  have hne := built_nonempty ch h
+  cases hc : ch.curves with
+  | nil => exact absurd hc hne
+  | cons f rest =>
+    cases hl : (f :: rest).getLast? with
+    | none => simp at hl
+    | some last =>
+      rw [close_eq ch f last rest hc hl]
+      refine ⟨rfl, by simp, _, nextCurve last len c2 f.start n, rfl, ?_, rfl, ?_⟩
+      · rw [← List.cons_append]; exact List.getLast?_concat ..
+      · exact sub_add_cancel_pt _ _
+
+/-- … and every joint of the closed chain is smooth as well -/
+theorem close_joined (ch : Chain α) (h : Built ch) (len : α) (c2 : Pt2 α) (startLen : α) (n : Nat) :
+    Joined (ch.close len c2 startLen n).curves := by
+  have hne := built_nonempty ch h
+  have hj := built_joined ch h
+  cases hc : ch.curves with
+  | nil => exact absurd hc hne
+  | cons f rest =>
+    cases hl : (f :: rest).getLast? with
+    | none => simp at hl
+    | some last =>
+      rw [close_eq ch f last rest hc hl]
+      rw [hc] at hj
+      have := joined_append (f :: rest) last _ hl hj (nextCurve_joined last len c2 f.start n)
+      simp only [List.cons_append] at this ⊢
+      cases hr : rest ++ [nextCurve last len c2 f.start n] with
+      | nil => exact True.intro
+      | cons g r =>
+        rw [hr] at this
+        exact ⟨⟨this.1.1, this.1.2⟩, this.2⟩
+
+/-- `bezier_star` is `BezierStar::new(..).gen_points()` -/
+theorem bezierStar_eq [CharZero α] (nPoints : Nat) (innerR innerH outerR outerH : α) (segments : Nat) :
+    bezierStar nPoints innerR innerH outerR outerH segments =
+      (bezierStarChain nPoints innerR innerH outerR outerH segments).map Chain.genPoints := rfl
+
+end Chains
+
+/-- the first published parameter, `i * (1/segments)`, misses the end point in floating point; in
+exact arithmetic both agree, which is why only the implementation run could expose it -/
+theorem paramLegacy_eq_param {α : Type} [Field α] (i n : Nat) : (paramLegacy i n : α) = param i n := by
+  simp [paramLegacy, param, div_eq_mul_inv]
 
 end ScadVerif.C08
